@@ -250,6 +250,23 @@ func cmdReplay(args []string) {
 		fmt.Fprintln(os.Stderr, err)
 		os.Exit(2)
 	}
+	// a failed bounded stand-in: its replay file names the stand-in; re-run it on the current tree
+	var sf struct {
+		Property string   `json:"property"`
+		Standin  *Standin `json:"standin"`
+		Output   string   `json:"output"`
+	}
+	if err := json.Unmarshal(data, &sf); err == nil && sf.Standin != nil && sf.Standin.File != "" {
+		fmt.Printf("bounded stand-in %s (%s): %s\nrecorded failure:\n%s\n--- re-running on the current tree ---\n", sf.Standin.Name, sf.Standin.File, sf.Standin.Bound, truncate(sf.Output, 3000))
+		out := runStandin(*sf.Standin, 1)
+		fmt.Println(truncate(out.Output, 4000))
+		if !out.Passed {
+			fmt.Printf("VIOLATION property=%s replay=%s\n", sf.Property, args[0])
+			os.Exit(1)
+		}
+		fmt.Println("the stand-in passes on the current tree")
+		return
+	}
 	var rf ReplayFile
 	if err := json.Unmarshal(data, &rf); err != nil {
 		fmt.Fprintln(os.Stderr, err)
